@@ -116,9 +116,12 @@ def applyCmd (s : St) (c : Cmd) : St :=
               trkEvt := { s.trkEvt with prepared := s.trkEvt.prepared ++ [(sys, d)] } }).push [.runnerStart sys .entEv]
   | .reactBc d sys =>
     ({ s with trkEvt := { s.trkEvt with prepared := s.trkEvt.prepared ++ [(sys, d)] } }).push [.runnerStart sys .bcEv]
-  | .spawnStorage sys => if s.alive sys then { s with storage := upd s.storage sys (some true) } else s
+  -- `commands.spawn(SystemCommandStorage)` targets a freshly reserved entity, which never has the component yet
+  | .spawnStorage sys =>
+    if s.alive sys ∧ s.storage sys = none then { s with storage := upd s.storage sys (some true) } else s
   | .insertOnce sys =>
-    if s.alive sys then { s with storage := upd s.storage sys (some true) } else s.emit (.canary sys)
+    if s.alive sys ∧ s.storage sys = none then { s with storage := upd s.storage sys (some true) }
+    else s.emit (.canary sys)
   | .spawnData d x => if s.alive d then { s with data := upd s.data d (some x) } else s.emit (.dropPayload x.pid)
   | .broadcast ty pid =>
     let hs := s.tbl .bc ty
@@ -185,113 +188,143 @@ def applyCmd (s : St) (c : Cmd) : St :=
 /-- Pushes the frames of `cleanup_on_abort`. -/
 def abortFrames (sys : Nat) (k : Kind) : List Frame := [.abort sys k, .gc, .poll]
 
+/-! Each frame's transition is a named function of the *popped* state, so that invariants are proved frame by frame. -/
+
+def doBatch (s : St) : List Cmd → St
+  | [] => s
+  | c :: cs => applyCmd (s.push [.flush, .batch cs]) c
+
+def doFlush (s : St) : St := if s.wq.isEmpty then s else ({ s with wq := [] }).push [.batch s.wq]
+
+def doBodyActs (p : Prog) (s : St) (sys : Nat) (k : Kind) (i : Nat) (acc : List Cmd) : St :=
+  match p sys i s with
+  | none => (s.emit (.bodyEnd sys)).push [.cleanup k, .flush, .batch acc]
+  | some a => (enqueue s a).1.push [.bodyActs sys k (i + 1) (acc ++ (enqueue s a).2)]
+
+def doExclActs (p : Prog) (s : St) (sys : Nat) (i : Nat) : St :=
+  match p sys i s with
+  | none => (s.emit (.bodyEnd sys)).push [.flush]
+  | some a => ({ (enqueue s a).1 with wq := (enqueue s a).1.wq ++ (enqueue s a).2 }).push [.exclActs sys (i + 1)]
+
+def doTopActs (h : Hist) (s : St) (t i : Nat) : St :=
+  match h.act t i s with
+  | none => s.push [.flush]
+  | some a => ({ (enqueue s a).1 with wq := (enqueue s a).1.wq ++ (enqueue s a).2 }).push [.topActs t (i + 1)]
+
+/-- `world.get_entity_mut(entity).ok().map(|e| e.despawn()); world.react(|rc| rc.revoke(token))`, then the wrapped
+    system (and what it captured) is dropped. -/
+def doOnceTail (s : St) (sys : Nat) : St :=
+  let s := despawn1 s sys
+  ({ s with wq := s.wq ++ [Cmd.revoke sys (((s.info sys).once).getD [])] }).push [.flush, .dropCallback sys]
+
+def doRunnerStart (s : St) (sys : Nat) (k : Kind) : St :=
+  (s.emit (.applied sys)).push [.gc, .poll, .runnerLookup sys k s.counter]
+
+/-- Prologue of a body: `setup`, then the first statement of the scripted system samples every reader; the run is
+    counted (`Local`), taken system-event payloads are dropped by the body. -/
+def startBody (s : St) (sys : Nat) (k : Kind) : St :=
+  let s := (setupK s k sys).emit (.enter sys)
+  let inf := s.info sys
+  let r := observe s (ewrOf s sys)
+  let s : St := { r.2 with info := upd r.2.info sys { inf with onceTaken := inf.once.isSome || inf.onceTaken, nruns := inf.nruns + 1 } }
+  let s := s.emit (.body sys inf.nruns r.1)
+  (r.1.sysEv.filterMap id).foldl (fun (s : St) pid => s.emit (.dropPayload pid)) s
+
+def doRunnerLookup (s : St) (sys : Nat) (k : Kind) (idx : Nat) : St :=
+  if !s.alive sys then (s.emit (.abortNoEntity sys)).push (abortFrames sys k) else
+  match s.storage sys with
+  | none => (s.emit (.abortNoStorage sys)).push (abortFrames sys k)
+  | some false =>
+    if idx = 0 then (s.emit (.abortRoot sys)).push (abortFrames sys k)
+    else ({ s with buffered := s.buffered ++ [(sys, k)] }).emit (.postponed sys)
+  | some true =>
+    let s : St := { s with storage := upd s.storage sys (some false), counter := s.counter + 1 }
+    let inf := s.info sys
+    if inf.once.isSome && inf.onceTaken then
+      -- the `once` wrapper finds its inner system gone: nothing runs (not even the cleanup)
+      ((setupK s k sys).emit (.enter sys)).push [.afterBody sys idx]
+    else
+      let s := startBody s sys k
+      if inf.once.isSome then s.push [.bodyActs sys k 0 [], .onceTail sys, .afterBody sys idx]
+      else if inf.excl then ({ s with wq := s.wq ++ [Cmd.cleanup k] }).push [.exclActs sys 0, .afterBody sys idx]
+      else s.push [.bodyActs sys k 0 [], .afterBody sys idx]
+
+def doAfterBody (s : St) (sys idx : Nat) : St := (s.emit (.exit sys)).push [.gc, .reinsert sys idx]
+
+/-- Reinsert the callback if its entity survived, otherwise drop it; then poll and replay. -/
+def doReinsert (s : St) (sys idx : Nat) : St :=
+  match s.alive sys, s.storage sys with
+  | true, some _ =>
+    (({ s with storage := upd s.storage sys (some true) } : St).emit (.reinserted sys)).push [.poll, .replayTake sys idx]
+  | true, none =>
+    let s := s.emit (.dropped sys)
+    let s := if (s.info sys).once.isSome then s else s.emit (.canary sys)
+    s.push [.despawnWork [(sys, false)], .gc, .poll, .replayTake sys idx]
+  | false, _ =>
+    let s := s.emit (.dropped sys)
+    let s := if (s.info sys).once.isSome then s else s.emit (.canary sys)
+    s.push [.gc, .poll, .replayTake sys idx]
+
+def doReplayTake (s : St) (sys idx : Nat) : St := ({ s with buffered := [] }).push [.replayLoop sys s.buffered [] idx]
+
+def doReplayLoop (s : St) (sys : Nat) (rest kept : List (Nat × Kind)) (idx : Nat) : St :=
+  match rest with
+  | [] => ({ s with buffered := s.buffered ++ kept }).push [.finish sys idx]
+  | b :: bs =>
+    if b.1 = sys then (s.emit (.replay sys)).push [.runnerStart b.1 b.2, .replayLoop sys bs kept idx]
+    else s.push [.replayLoop sys bs (kept ++ [b]) idx]
+
+def doFinish (s : St) (sys idx : Nat) : St :=
+  if idx = 0 then
+    match s.buffered with
+    | [] => ({ s with counter := 0 }).emit (.ret_ sys)
+    | b :: bs => (({ s with buffered := bs }).emit (.discard b.1)).push (abortFrames b.1 b.2 ++ [Frame.finish sys idx])
+  else s.emit (.ret_ sys)
+
+def doGc (s : St) : St :=
+  match s.autoChan with
+  | [] => s
+  | e :: es => ({ s with autoChan := es }).push [.despawnWork [(e, false)], .gc]
+
+def doDespawnWork (s : St) : List (Nat × Bool) → St
+  | [] => s
+  | (e, expanded) :: work =>
+    if expanded then (despawn1 s e).push [.despawnWork work]
+    else if s.alive e then
+      ({ s with children := upd s.children e [] }).push [.despawnWork ((s.children e).map (fun c => (c, false)) ++ (e, true) :: work)]
+    else s.push [.despawnWork work]
+
+def doPoll (s : St) : St :=
+  let r1 := pollRemovals s
+  let r2 := pollDespawns r1.1
+  ({ r2.1 with wq := r2.1.wq ++ r1.2 ++ r2.2 }).push [.flush]
+
+/-- Runs frame `f` on the popped state `s`. -/
+def runFrame (p : Prog) (h : Hist) (s : St) : Frame → St
+  | .batch cs => doBatch s cs
+  | .flush => doFlush s
+  | .bodyActs sys k i acc => doBodyActs p s sys k i acc
+  | .exclActs sys i => doExclActs p s sys i
+  | .topActs t i => doTopActs h s t i
+  | .cleanup k => cleanupK s k
+  | .onceTail sys => doOnceTail s sys
+  | .dropCallback sys => s.emit (.canary sys)
+  | .runnerStart sys k => doRunnerStart s sys k
+  | .runnerLookup sys k idx => doRunnerLookup s sys k idx
+  | .afterBody sys idx => doAfterBody s sys idx
+  | .reinsert sys idx => doReinsert s sys idx
+  | .replayTake sys idx => doReplayTake s sys idx
+  | .replayLoop sys rest kept idx => doReplayLoop s sys rest kept idx
+  | .finish sys idx => doFinish s sys idx
+  | .abort sys k => cleanupK (setupK s k sys) k
+  | .gc => doGc s
+  | .despawnWork work => doDespawnWork s work
+  | .poll => doPoll s
+
 /-- One step: pop the top frame and run it. `none` iff the stack is empty. -/
 def step (p : Prog) (h : Hist) (s0 : St) : Option St :=
   match s0.stack with
   | [] => none
-  | f :: rest =>
-    let s := { s0 with stack := rest }
-    some <|
-    match f with
-    | .batch [] => s
-    | .batch (c :: cs) => applyCmd (s.push [.flush, .batch cs]) c
-    | .flush => if s.wq.isEmpty then s else ({ s with wq := [] }).push [.batch s.wq]
-    | .bodyActs sys k i acc =>
-      match p sys i s with
-      | none => (s.emit (.bodyEnd sys)).push [.cleanup k, .flush, .batch acc]
-      | some a =>
-        let (s, cs) := enqueue s a
-        s.push [.bodyActs sys k (i + 1) (acc ++ cs)]
-    | .exclActs sys i =>
-      match p sys i s with
-      | none => (s.emit (.bodyEnd sys)).push [.flush]
-      | some a =>
-        let (s, cs) := enqueue s a
-        ({ s with wq := s.wq ++ cs }).push [.exclActs sys (i + 1)]
-    | .topActs t i =>
-      match h.act t i s with
-      | none => s.push [.flush]
-      | some a =>
-        let (s, cs) := enqueue s a
-        ({ s with wq := s.wq ++ cs }).push [.topActs t (i + 1)]
-    | .cleanup k => cleanupK s k
-    | .onceTail sys =>
-      -- `world.get_entity_mut(entity).ok().map(|e| e.despawn()); world.react(|rc| rc.revoke(token))`, then the
-      -- wrapped system (and what it captured) is dropped.
-      let s := despawn1 s sys
-      let toks := ((s.info sys).once).getD []
-      (({ s with wq := s.wq ++ [Cmd.revoke sys toks] }).push [.flush, .dropCallback sys])
-    | .dropCallback sys => s.emit (.canary sys)
-    | .runnerStart sys k => (s.emit (.applied sys)).push [.gc, .poll, .runnerLookup sys k s.counter]
-    | .runnerLookup sys k idx =>
-      if !s.alive sys then (s.emit (.abortNoEntity sys)).push (abortFrames sys k) else
-      match s.storage sys with
-      | none => (s.emit (.abortNoStorage sys)).push (abortFrames sys k)
-      | some false =>
-        if idx = 0 then (s.emit (.abortRoot sys)).push (abortFrames sys k)
-        else ({ s with buffered := s.buffered ++ [(sys, k)] }).emit (.postponed sys)
-      | some true =>
-        let s := { s with storage := upd s.storage sys (some false), counter := s.counter + 1 }
-        let s := setupK s k sys
-        let s := s.emit (.enter sys)
-        let inf := s.info sys
-        match inf.once with
-        | some _ =>
-          if inf.onceTaken then s.push [.afterBody sys idx] else
-          let (obs, s) := observe s (ewrOf s sys)
-          let s := { s with info := upd s.info sys { inf with onceTaken := true, nruns := inf.nruns + 1 } }
-          let s := s.emit (.body sys inf.nruns obs)
-          let s := (obs.sysEv.filterMap id).foldl (fun s pid => s.emit (.dropPayload pid)) s
-          s.push [.bodyActs sys k 0 [], .onceTail sys, .afterBody sys idx]
-        | none =>
-          let (obs, s) := observe s (ewrOf s sys)
-          let s := { s with info := upd s.info sys { inf with nruns := inf.nruns + 1 } }
-          let s := s.emit (.body sys inf.nruns obs)
-          let s := (obs.sysEv.filterMap id).foldl (fun s pid => s.emit (.dropPayload pid)) s
-          if inf.excl then
-            ({ s with wq := s.wq ++ [Cmd.cleanup k] }).push [.exclActs sys 0, .afterBody sys idx]
-          else s.push [.bodyActs sys k 0 [], .afterBody sys idx]
-    | .afterBody sys idx => (s.emit (.exit sys)).push [.gc, .reinsert sys idx]
-    | .reinsert sys idx =>
-      -- reinsert the callback if its entity survived, otherwise drop it; then poll and replay
-      match s.alive sys, s.storage sys with
-      | true, some _ =>
-        let s := { s with storage := upd s.storage sys (some true) }
-        (s.emit (.reinserted sys)).push [.poll, .replayTake sys idx]
-      | true, none =>
-        let s := s.emit (.dropped sys)
-        let s := if (s.info sys).once.isSome then s else s.emit (.canary sys)
-        s.push [.despawnWork [(sys, false)], .gc, .poll, .replayTake sys idx]
-      | false, _ =>
-        let s := s.emit (.dropped sys)
-        let s := if (s.info sys).once.isSome then s else s.emit (.canary sys)
-        s.push [.gc, .poll, .replayTake sys idx]
-    | .replayTake sys idx => ({ s with buffered := [] }).push [.replayLoop sys s.buffered [] idx]
-    | .replayLoop sys [] kept idx => ({ s with buffered := s.buffered ++ kept }).push [.finish sys idx]
-    | .replayLoop sys (b :: bs) kept idx =>
-      if b.1 = sys then (s.emit (.replay sys)).push [.runnerStart b.1 b.2, .replayLoop sys bs kept idx]
-      else s.push [.replayLoop sys bs (kept ++ [b]) idx]
-    | .finish sys idx =>
-      if idx = 0 then
-        match s.buffered with
-        | [] => ({ s with counter := 0 }).emit (.ret_ sys)
-        | b :: bs => (({ s with buffered := bs }).emit (.discard b.1)).push (abortFrames b.1 b.2 ++ [Frame.finish sys idx])
-      else s.emit (.ret_ sys)
-    | .abort sys k => cleanupK (setupK s k sys) k
-    | .gc =>
-      match s.autoChan with
-      | [] => s
-      | e :: es => ({ s with autoChan := es }).push [.despawnWork [(e, false)], .gc]
-    | .despawnWork [] => s
-    | .despawnWork ((e, expanded) :: work) =>
-      if expanded then (despawn1 s e).push [.despawnWork work]
-      else if s.alive e then
-        let cs := s.children e
-        ({ s with children := upd s.children e [] }).push [.despawnWork (cs.map (fun c => (c, false)) ++ (e, true) :: work)]
-      else s.push [.despawnWork work]
-    | .poll =>
-      let (s, c1) := pollRemovals s
-      let (s, c2) := pollDespawns s
-      ({ s with wq := s.wq ++ c1 ++ c2 }).push [.flush]
+  | f :: rest => some (runFrame p h { s0 with stack := rest } f)
 
 end Cobweb
